@@ -78,6 +78,7 @@ type Obligation struct {
 }
 
 type VC struct {
+	blockReach map[*ssa.BasicBlock]string // path condition of each block executed so far (merged blocks)
 	covers     []*Obligation
 	droppedInv map[*Clause]bool
 	notes      []string
@@ -364,6 +365,9 @@ func (vc *VC) flushWf(h *Heap) {
 }
 
 func (vc *VC) havocAll(h *Heap) {
+	if os.Getenv("GOVC_TRACEHAVOC") != "" {
+		fmt.Fprintf(os.Stderr, "havocAll in %s at %v\n", vc.key, vc.prog.prog.Fset.Position(vc.curPos))
+	}
 	alloc := vc.get(h, "$alloc")
 	vc.nver++
 	h.m = map[string]string{}
